@@ -34,8 +34,16 @@
                           the count alone (`int(le) >= useMapCnt`, with the UseMapCnt configured at the restart): a map that
                           shrank below useMapCnt comes back as a list in arbitrary order. The bytes are in Model/BalancesDisk.lean.
   Not modelled: the OP_RETURN "message" decoration of GetAllUnspent, UTXO_PURGE_UNSPENDABLE (false).
-  Index panics of the Go code (mask shorter than the output list) are outside the admissible histories
-  and are total here (`getD`).
+  Index panics of the Go code (a spent mask SHORTER than the record's output list: all_del_utxos `outs[vout]`; a mask
+  LONGER than it: UnspentDB.del `rec.Outs[i]`) are total here (`getD`: a missing mask entry = not spent, a surplus one is
+  ignored). `Admissible` does NOT exclude such events (`.del` / `.undoDel` are admissible with any mask) and the theorems
+  hold for them — about this total definition, not about the Go code, which panics. They cannot arise: chain_accept.go
+  makes every mask `make([]bool, VoutCount)` of the record it spends, UndoBlockTxs builds its mask from the transaction's
+  own output count. With the index OFF and a mask shorter than the record, Go's `del` computes `anyout` over the mask's
+  range only; the model looks at all outputs — same remark.
+  `step (.reload)` keeps every record's `value`; that this is what disk.go does is `reload_is_cache_roundtrip`, which needs
+  `WFBal` (value < 2^64 and entries distinct): CompressAmount / the VARINT writer do not wrap below 2^64, and a record's
+  value is a sum of outputs of one address (bounded by the money supply, < 2^51). The keyed theorems do not assume it.
 -/
 import GocoinV.Base.Hex
 namespace GocoinV.Model.Balances
